@@ -272,6 +272,13 @@ func runSample() {
 	if chk.Quick() {
 		desc = "grid dimensions {1,2,3,8,21,57}^2 + 177x177, 177x1, 1x177 (39 pairs)"
 	}
+	// thin grids with more than 255 cells on one axis (no symbology has them; a cell index is an int)
+	for _, d := range [][2]int{{256, 1}, {257, 1}, {1, 257}, {300, 2}, {2, 300}, {259, 3}} {
+		for k := range xforms(d[0], d[1]) {
+			jobs = append(jobs, job{d[0], d[1], k})
+		}
+	}
+	desc += " + thin grids 256x1, 257x1, 1x257, 300x2, 2x300, 259x3"
 	name := fmt.Sprintf("sampling: %s x transform classes {25 translations k/8, 10 scales 1..4, 14 rotations/mirrors, 4 shears, 3-4 perspectives} x images {%d kinds} x {SampleGrid, SampleGridWithTransform}: every cell compared with the exact model", desc, len(imageKinds))
 	chk.Range(name, len(jobs), func(i int) string { return fmt.Sprint(jobs[i]) },
 		func(l *mc.Local, i int) {
